@@ -15,7 +15,7 @@ func miscRules() []*Rule {
 		{ID: "RANGE", Props: []string{"C13", "C03", "C02"}, Min: 8,
 			Doc: "cut-off tables of the low-level scans: ScanEq stops (without the user callback) at the first record not Equal to the key it searched with; ScanRange stops at the first record not less than `to`; ScanMin/Scan forward every record",
 			Run: runRange},
-		{ID: "KEY", Props: []string{"C03", "C02", "C11", "C13"}, Min: 14,
+		{ID: "KEY", Props: []string{"C03", "C02", "C11", "C13", "C05"}, Min: 14,
 			Doc: "asDbKey: key column i takes direction and collation from index column i (validated against CollateFuncs before use), each accepted Go type maps to one of the five storage types, too many columns is an error",
 			Run: runKey},
 		{ID: "PKSEL", Props: []string{"C03", "C04"}, Min: 4,
@@ -97,6 +97,15 @@ func runRange(c *Ctx) {
 		}
 		// the per-record adapter: the function literal handed to the iterator (in place or made by a helper)
 		fn, ft := adapterOf(p, outer, iter)
+		deleg := false
+		if fn == nil && sp0.pred != "" && sp0.outer != "(*db.Index).ScanMin" {
+			// a scan with a cut-off written as a from-key scan that stops early: `in.ScanMin(from, func(rec) bool {…})`.
+			// ScanMin forwards every record and returns the callback's answer (its own row of this table), so the
+			// literal is the per-record adapter, with a single result
+			if f2, t2 := adapterOf(p, outer, "(*db.Index).ScanMin"); f2 != nil {
+				fn, ft, deleg = f2, t2, true
+			}
+		}
 		if fn == nil {
 			c.Undecided("anchor "+sp0.outer+" adapter", outer.Pos(), "%s does not hand a function literal to %s", sp0.outer, iter)
 			continue
@@ -113,6 +122,9 @@ func runRange(c *Ctx) {
 			}
 			key := sp.fn + ":" + pathSig(lp, 99)
 			rt := retTerms(t, lp)
+			if deleg && len(rt) == 1 {
+				rt = append(rt, "const:nil") // no error result: nothing to get wrong there
+			}
 			cbs := eventsOf(lp, "call", "func-value:db.RecordCB")
 			delivered := len(cbs) == 1 && len(cbs[0].Args) == 1 && cbs[0].Args[0] == "p:rec"
 			if sp.pred == "" {
@@ -140,6 +152,12 @@ func runRange(c *Ctx) {
 		opaths, _ := EnumLits(outer.Blocks[0], 0, TabOpts{Termer: t, EventOf: callEvents(p)})
 		for _, lp := range opaths {
 			if !cleanPath(lp) || lp.Exit == nil {
+				continue
+			}
+			if deleg {
+				ev := eventsOf(lp, "call", "(*db.Index).ScanMin")
+				good := len(ev) == 1 && len(ev[0].Args) == 3 && ev[0].Args[0] == "p:"+outer.Params[0].Name() && ev[0].Args[1] == sp.outerArg
+				c.Check(good, p.FnKey(outer)+" start", outer.Pos(), "the scan is a ScanMin on the same index from %s", sp.outerArg)
 				continue
 			}
 			name := "db.indexBtree.IterMin"
@@ -174,7 +192,7 @@ func runKey(c *Ctx) {
 	el := colsP + "[i]"
 	wantV := map[string]string{
 		"nil": "const:nil", "int64": "assert(K,int64)#0", "float64": "assert(K,float64)#0", "string": "assert(K,string)#0", "[]byte": "assert(K,[]byte)#0",
-		"int": "assert(K,int)#0", "uint": "assert(K,uint)#0", "int32": "assert(K,int32)#0", "uint32": "assert(K,uint32)#0", "float32": "assert(K,float32)#0",
+		"int": "assert(K,int)#0", "uint": "conv:int64(assert(K,uint)#0)", "int32": "assert(K,int32)#0", "uint32": "assert(K,uint32)#0", "float32": "assert(K,float32)#0",
 	}
 	seenTypes := map[string]bool{}
 	for _, lp := range paths {
@@ -935,7 +953,7 @@ func runDone0(c *Ctx) {
 }
 func autoidxRule() *Rule {
 	return &Rule{ID: "AUTOIDX", Props: []string{"C10"}, Min: 3,
-		Doc: "automatic-index numbering: on a rowid table the counter behind sqlite_autoindex_<table>_<n> advances only when the constraint actually created an index (SQLite shares an existing equivalent index and does not consume a number); WITHOUT ROWID primary keys always consume one",
+		Doc: "automatic-index numbering: on a rowid table the counter behind sqlite_autoindex_<table>_<n> advances only when the constraint actually created an index (SQLite shares an existing equivalent index and does not consume a number); a WITHOUT ROWID primary key consumes one unless it takes over the index of an earlier equivalent UNIQUE",
 		Run: runAutoIdx}
 }
 
@@ -1031,7 +1049,40 @@ func runAutoIdx(c *Ctx) {
 						wr = true
 					}
 				}
-				if wr {
+				// which call decides about this increment: the most recent addIndex or setPK on the path
+				var guard *Event
+				for i := range lp.Events {
+					e := &lp.Events[i]
+					if e.Kind == "call" && (e.Name == "(*db.Schema).addIndex" || e.Name == "(*db.Schema).setPK") {
+						guard = e
+					}
+				}
+				if wr && guard != nil && guard.Name == "(*db.Schema).setPK" {
+					// WITHOUT ROWID: the primary key is an index of its own (it is the table) and uses up a number —
+					// unless it takes over the index of an earlier, equivalent UNIQUE, which already has one. A
+					// column's own PRIMARY KEY (its key is a literal of that one column) cannot meet an earlier
+					// equivalent: the constraints of earlier columns name other columns and this column's UNIQUE is
+					// handled after its PRIMARY KEY.
+					if len(guard.Args) == 2 && !strings.Contains(guard.Args[1], "call:") {
+						continue
+					}
+					res := ""
+					if v, isVal := guard.Instr.(ssa.Value); isVal && v.Type() != nil {
+						if b, isB := v.Type().Underlying().(*types.Basic); isB && b.Kind() == types.Bool {
+							res = t.Term(v, lp.PS)
+						}
+					}
+					if res == "" || !(lp.Has(res, token.EQL, "true", false) || lp.Has(res, token.EQL, "false", true)) {
+						bad = "WITHOUT ROWID table constraint: " + pathDesc(lp)
+						if len(bad) > 300 {
+							bad = "…" + bad[len(bad)-300:]
+						}
+						bad += " — the counter advances whether or not the primary key took over the index of an earlier equivalent UNIQUE (`a UNIQUE, PRIMARY KEY(a), UNIQUE(b)`: SQLite names b's index _2)"
+						break
+					}
+					continue
+				}
+				if wr && guard == nil {
 					continue
 				}
 				// the most recent addIndex call on the path must have answered true
